@@ -315,7 +315,10 @@ def _mk_tile_compressor(
     from tifffile import TIFF
 
     tile_shape = meta.chunks
-    encoder = TIFF.COMPRESSORS[meta.compression]
+    encoder = None
+    if meta.compression != 1:
+        # COMPRESSION.NONE maps to an identity function that returns the array, not bytes
+        encoder = TIFF.COMPRESSORS[meta.compression]
 
     predictor = None
     if meta.predictor != 1:
